@@ -19,7 +19,7 @@ func init() {
 	if old, ok := gens["C04"]; ok {
 		gens["C04"] = func(w *bufio.Writer, rng *hx.Rng, tier string) {
 			old(w, rng, tier)
-			n := 60
+			n := 160
 			if tier == "thorough" {
 				n = 800
 			}
